@@ -43,6 +43,8 @@ impl FreeOrder {
 /// every live block is freed in `order`.
 #[derive(Clone, Debug)]
 pub struct Workload {
+    /// run once before the repetitions start (it frees everything it allocates): the heap layout the workload starts from
+    pub warmup: Vec<Op>,
     pub ops: Vec<Op>,
     pub order: FreeOrder,
     pub policy: Policy,
@@ -50,7 +52,7 @@ pub struct Workload {
 
 impl Workload {
     pub fn to_json(&self) -> Value {
-        json!({"phase":"lasso","op":"lasso","workload": show_ops(&self.ops), "free_order": self.order.name(), "policy": self.policy.letter().to_string()})
+        json!({"phase":"lasso","op":"lasso","warmup": show_ops(&self.warmup), "workload": show_ops(&self.ops), "free_order": self.order.name(), "policy": self.policy.letter().to_string()})
     }
     pub fn from_json(v: &Value) -> Workload {
         let ops = match v["workload"].as_array() {
@@ -61,23 +63,28 @@ impl Workload {
             _ => parse_ops(&v["workload"]),
         };
         Workload {
+            warmup: parse_ops(&v["warmup"]),
             ops,
             order: FreeOrder::parse(v["free_order"].as_str().unwrap_or("fifo")),
             policy: v["policy"].as_str().and_then(|s| s.chars().next()).and_then(Policy::from_letter).unwrap_or(Policy::TopDown),
         }
     }
     pub fn peak_live(&self) -> usize {
+        // the warm-up is part of the history: its peak counts too
+        Self::peak_of(&self.warmup, FreeOrder::Fifo).max(Self::peak_of(&self.ops, self.order))
+    }
+    fn peak_of(ops: &[Op], order: FreeOrder) -> usize {
         let mut slots: Vec<Option<usize>> = Vec::new();
         let mut peak = 0usize;
         let mut prev: Option<usize> = None; // interleaved: the block allocated before this one
-        for op in &self.ops {
+        for op in ops {
             match *op {
                 Op::Malloc { size, .. } | Op::Calloc { size, .. } => {
                     match slots.iter().position(|s| s.is_none()) {
                         Some(i) => slots[i] = Some(size),
                         None => slots.push(Some(size)),
                     }
-                    if self.order == FreeOrder::Interleaved {
+                    if order == FreeOrder::Interleaved {
                         peak = peak.max(size + prev.unwrap_or(0));
                         prev = Some(size);
                         continue;
@@ -154,13 +161,78 @@ fn hash_words(mut h: u64, p: *const u8, len: usize, n: &Norm) -> u64 {
     h
 }
 
+fn swap_is_off() -> bool {
+    use std::sync::OnceLock;
+    static OFF: OnceLock<bool> = OnceLock::new();
+    *OFF.get_or_init(|| std::fs::read_to_string("/proc/swaps").map(|s| s.lines().count() <= 1).unwrap_or(false))
+}
+
+const ZERO_PAGE: u64 = 0x5a45_524f_5041_4745;
+
+/// Hash a mapped range page by page.  An all-zero page contributes one constant, whether it was ever
+/// touched or not; pages that are not resident (never touched since they were mapped: anonymous memory,
+/// no swap) are known to be zero without being read, which keeps big untouched free chunks cheap.
+/// Returns the hash; `read` counts the bytes that were really looked at.
+fn hash_region(mut h: u64, a: usize, b: usize, n: &Norm, read: &mut usize) -> u64 {
+    let pages = (b - a) / PAGE;
+    let mut res = vec![1u8; pages];
+    if swap_is_off() {
+        let rc = unsafe { libc::mincore(a as *mut _, b - a, res.as_mut_ptr()) };
+        if rc != 0 {
+            res.iter_mut().for_each(|x| *x = 1);
+        }
+    }
+    for (i, r) in res.iter().enumerate() {
+        if r & 1 == 0 {
+            h = mix(h, ZERO_PAGE);
+            continue;
+        }
+        let p = (a + i * PAGE) as *const u64;
+        *read += PAGE;
+        let mut acc = 0u64;
+        for k in 0..PAGE / 8 {
+            acc |= unsafe { p.add(k).read() };
+        }
+        if acc == 0 {
+            h = mix(h, ZERO_PAGE);
+        } else {
+            h = hash_words(h, p as *const u8, PAGE, n);
+        }
+    }
+    h
+}
+
 /// One round.  Err(msg) = allocator panicked; Ok(None) = an allocation returned null.
 /// Returns the addresses the round's operations returned.
 fn round(w: &mut World, wl: &Workload) -> Result<Option<Vec<usize>>, String> {
+    round_of(w, &wl.ops, wl.order)
+}
+
+/// is there, inside one of `regions`, a gap of at least `need` bytes that no live block touches?
+fn free_gap(regions: &[(usize, usize)], live: &[Option<(usize, usize, usize)>], need: usize) -> bool {
+    for &(a, b) in regions {
+        let mut blocks: Vec<(usize, usize)> = live.iter().flatten().filter(|x| x.0 >= a && x.0 < b).map(|x| (x.0, x.0 + x.1)).collect();
+        blocks.sort();
+        let mut lo = a;
+        for (s, e) in blocks {
+            if s > lo && s - lo >= need {
+                return true;
+            }
+            lo = lo.max(e);
+        }
+        if b > lo && b - lo >= need {
+            return true;
+        }
+    }
+    false
+}
+
+fn round_of(w: &mut World, ops: &[Op], order: FreeOrder) -> Result<Option<Vec<usize>>, String> {
     let a: *mut Dlmalloc = &mut *w.a;
-    let k = &mut w.k;
-    let ops = &wl.ops;
-    let order = wl.order;
+    // the kernel is the plan of `sysx::run`; between two allocator calls (no plan code running) the closure
+    // below also reads its mapping table through this pointer
+    let kp: *mut Kernel = &mut w.k;
+    let k = unsafe { &mut *kp };
     catch(|| {
         sysx::run(k, || unsafe {
             let mut ptrs: Vec<usize> = Vec::with_capacity(ops.len());
@@ -170,9 +242,14 @@ fn round(w: &mut World, wl: &Workload) -> Result<Option<Vec<usize>>, String> {
             for op in ops {
                 match *op {
                     Op::Malloc { size, align } | Op::Calloc { size, align } => {
+                        let (mmaps_before, regions_before) = ((*kp).mmaps, (*kp).regions.clone());
                         let p = if matches!(op, Op::Malloc { .. }) { (*a).malloc(size, align) } else { (*a).calloc(size, align) } as usize;
                         if p == 0 {
                             return None;
+                        }
+                        if (*kp).mmaps > mmaps_before && size >= 256 && free_gap(&regions_before, &slots, 2 * size + 2 * align + 4096) {
+                            // observation only (C04 bounds the footprint, it does not demand reuse)
+                            (*kp).reuse_misses += 1;
                         }
                         ptrs.push(p);
                         let s = match slots.iter().position(|s| s.is_none()) {
@@ -283,6 +360,8 @@ pub struct LassoResult {
     pub stop: &'static str,
     /// (virtual round, kernel events) of every round in which the kernel was called
     pub event_trace: Vec<(usize, Vec<Ev>)>,
+    /// mmaps issued although a free gap of more than twice the request existed inside one mapping
+    pub reuse_misses: usize,
 }
 
 /// Iterate the workload's round until the state recurs (or a limit is hit).
@@ -301,6 +380,23 @@ pub fn run_workload(w: &mut World, wl: &Workload, lim: Limits, r: &mut Report, v
     set_case(&case.to_string());
     let t0 = cpu_now();
     let bound = wl.bound();
+    if !wl.warmup.is_empty() {
+        match round_of(w, &wl.warmup, FreeOrder::Fifo) {
+            Ok(Some(_)) if w.k.anomalies.is_empty() => {}
+            other => {
+                clear_case();
+                r.violation(
+                    "C04:lasso:warm-up-failed",
+                    format!("warm-up of workload {case} did not run normally: {:?} anomalies {:?}", other.map(|x| x.map(|v| v.len())), w.k.anomalies),
+                    case.clone(),
+                );
+                return None;
+            }
+        }
+        if verbose {
+            println!("  after warm-up: footprint {} regions {:x?}", w.k.footprint, w.k.regions);
+        }
+    }
     let mut cheap_seen: HashSet<u64> = HashSet::new();
     let mut full_at: HashMap<u64, Vec<(usize, u64)>> = HashMap::new();
     let mut res = LassoResult { stop: "round-cap", ..Default::default() };
@@ -398,15 +494,14 @@ pub fn run_workload(w: &mut World, wl: &Workload, lim: Limits, r: &mut Report, v
         let mapped: usize = w.k.regions.iter().map(|r| r.1 - r.0).sum();
         if rd == 1 {
             // room for a few hundred full hashes of a heap of the size this workload settles at
-            budget += 600 * mapped;
+            budget += 600 * mapped.min(4 << 20);
         }
         let mut mem_hash: Option<u64> = None;
         let mem_of = |hashed: &mut usize| -> u64 {
             let mut f = mem_seed;
             for &(a, b) in &regions_now {
-                f = hash_words(f, a as *const u8, b - a, &n);
+                f = hash_region(f, a, b, &n, hashed);
             }
-            *hashed += mapped;
             f
         };
         if (rd < last_event_round + 64 && hashed < budget) || seen {
@@ -492,6 +587,7 @@ pub fn run_workload(w: &mut World, wl: &Workload, lim: Limits, r: &mut Report, v
         }
     }
     clear_case();
+    res.reuse_misses = w.k.reuse_misses;
     res.states = cheap_seen.len();
     res.max_footprint = w.k.peak_footprint;
     res.final_footprint = w.k.footprint;
@@ -515,6 +611,9 @@ pub fn judge(wl: &Workload, res: &LassoResult, r: &mut Report) {
     r.transitions += res.rounds as u64;
     if res.skipped > 0 {
         r.outcome("rounds-skipped-by-countdown-acceleration");
+    }
+    if res.reuse_misses > 0 {
+        r.outcome("reuse:mmap-although-a-free-gap>=2x-request-existed-in-one-mapping");
     }
     let bound = wl.bound();
     match res.recurrence {
@@ -600,7 +699,7 @@ pub fn alloc_family(th: bool) -> Vec<Workload> {
                 continue; // identical to fifo
             }
             for p in ALL_POLICIES {
-                v.push(Workload { ops: idx.iter().map(|&i| Op::Malloc { size: al[i].0, align: al[i].1 }).collect(), order, policy: p });
+                v.push(Workload { warmup: vec![], ops: idx.iter().map(|&i| Op::Malloc { size: al[i].0, align: al[i].1 }).collect(), order, policy: p });
             }
         }
     });
@@ -672,7 +771,7 @@ pub fn seq_family(th: bool) -> Vec<Workload> {
                 continue;
             }
             for &p in &al.policies {
-                v.push(Workload { ops: s.clone(), order, policy: p });
+                v.push(Workload { warmup: vec![], ops: s.clone(), order, policy: p });
             }
         }
     }
